@@ -21,3 +21,7 @@ open IrVerif.Scope
 #print axioms C17_ext_sharding_named_model
 #print axioms C17_ext_payload_fixpoint
 #print axioms C17_ir9_entries_inert
+#print axioms IrVerif.Scope.C17_idempotent_ext
+#print axioms IrVerif.Scope.C17_idempotent_ir9
+#print axioms IrVerif.Scope.C17_idempotent_ext_model
+#print axioms IrVerif.Scope.C17_ext_sharding_resolved
